@@ -15,3 +15,20 @@ theorem count_set_move {α} [DecidableEq α] (l : List α) (i : Nat) (y : α) (h
   · by_cases hy : y = b <;> simp [hb, hy]
 
 end ParsecVerif.Interleave
+
+namespace ParsecVerif.Interleave
+
+/-- replacing one entry of a list of naturals moves the sum accordingly -/
+theorem sum_set (l : List Nat) (i v : Nat) (h : i < l.length) : (l.set i v).sum + l[i] = l.sum + v := by
+  induction l generalizing i with
+  | nil => simp at h
+  | cons a t ih =>
+    cases i with
+    | zero => simp; omega
+    | succ k =>
+      simp only [List.length_cons, Nat.add_lt_add_iff_right] at h
+      have := ih k h
+      simp only [List.set_cons_succ, List.sum_cons, List.getElem_cons_succ]
+      omega
+
+end ParsecVerif.Interleave
